@@ -49,4 +49,50 @@ def early (f : Facts) (initAt : Option Int) (issuerEmpty : Bool) (reqAt : Int) (
     else giveUpAnswer (reqAt + f.initWait) clientGivesUpAt
   | none => giveUpAnswer (reqAt + f.initWait) clientGivesUpAt
 
+/-! ### attempt instants and the hourly refresh (main.go `startMetadataRefresh`, metadata_cache.go `GetMetadata`) -/
+
+/-- the instants at which the attempts of the initialisation start (same recursion as `initRun`) -/
+def initAttempts {Doc : Type} (f : Facts) : List (Outcome Doc) → Int → Nat → List Int
+  | [], _, _ => []
+  | .ok _ _ :: _, t, _ => [t]
+  | .fail dur :: rest, t, i =>
+    t :: (if i + 1 < f.maxRetries then initAttempts f rest (t + dur + backoff f i) (i + 1)
+          else if f.loops then initAttempts f rest (t + dur + backoff f i + f.retryInterval) 0
+          else [])
+
+/-- what the initialisation consumed of the script -/
+def initRest {Doc : Type} (f : Facts) : List (Outcome Doc) → Nat → List (Outcome Doc)
+  | [], _ => []
+  | .ok _ _ :: rest, _ => rest
+  | .fail _ :: rest, i =>
+    if i + 1 < f.maxRetries then initRest f rest (i + 1)
+    else if f.loops then initRest f rest 0
+    else rest
+
+/-- one `discoverProviderMetadata` round (refresh): up to `maxRetries` attempts; returns end instant, document, rest of
+    the script and the attempt instants -/
+def round {Doc : Type} (f : Facts) : List (Outcome Doc) → Int → Nat → Int × Option Doc × List (Outcome Doc) × List Int
+  | [], t, _ => (t, none, [], [])
+  | .ok d dur :: rest, t, _ => (t + dur, some d, rest, [t])
+  | .fail dur :: rest, t, i =>
+    if i + 1 < f.maxRetries then
+      let r := round f rest (t + dur + backoff f i) (i + 1)
+      (r.1, r.2.1, r.2.2.1, t :: r.2.2.2)
+    else (t + dur + backoff f i, none, rest, [t])
+
+structure RState (Doc : Type) where
+  doc     : Doc          -- the endpoints the instance serves with
+  expires : Int          -- metadata cache entry valid while now < expires
+
+/-- one tick of the hourly refresh at instant `now`; `hour`/`fiveMin` in the clock's unit.  (The cache's own 5-minute
+    clean-up only ever drops a document that is already expired, which `now < expires` covers.) -/
+def refreshTick {Doc : Type} (f : Facts) (hour fiveMin : Int) (s : RState Doc) (now : Int) (script : List (Outcome Doc)) :
+    RState Doc × List (Outcome Doc) × List Int :=
+  if now < s.expires then (s, script, [])
+  else
+    let r := round f script now 0
+    match r.2.1 with
+    | some d => ({ doc := d, expires := r.1 + hour }, r.2.2.1, r.2.2.2)
+    | none => ({ s with expires := r.1 + fiveMin }, r.2.2.1, r.2.2.2)   -- a failed refresh keeps the endpoints
+
 end Oidc.Discovery
